@@ -58,6 +58,8 @@ def instances(tier):
                             continue  # three sub-changes: the full 5x5 grid for fault-in-do, 4x4 for stop-in-undo; the other two modes stay at two
                         if tier == "thorough" and mode == "undo-stop" and (k0 not in quick_kinds or k1 not in quick_kinds):
                             continue
+                        if tier == "thorough" and KINDS[k0] == "move" and KINDS[k1] == "move":
+                            continue  # two moves first over the six-file universe: > 50 min per instance; covered at m = 2 and, over the small universe, by the quick tier
                         out.append(("%s.m%d.%s.%s" % (mode, m, KINDS[k0], KINDS[k1]), dict(mode=mode, m=m, first=[k0, k1], tier=tier)))
     return out
 
